@@ -110,14 +110,20 @@ def errtype(r: dict) -> str:
     return "+".join(sorted({e.split(":")[0] for e in errs if e}))
 
 
+def judge_env(cases_file) -> dict:
+    """The judge pass must not re-run the spec's Generate (TLC evaluates unused constant definitions too)."""
+    return {"JUDGE_CASES": str(cases_file), "CASES_FILE": "none"}
+
+
 def run(ctx):
-    consts = {"MaxP": "2" if ctx.quick else "3", "MaxP2": "1" if ctx.quick else "2"}
+    consts = {"MaxP": "2" if ctx.quick else "3", "MaxP2": "1" if ctx.quick else "2", "MaxPB": "2",
+              "MaxPB0": "2" if ctx.quick else "3", "NVals": "2" if ctx.quick else "3"}
     cases_file, cases = p3.generate(ctx, "Builder", consts)
     ctx.log(f"{len(cases)} cases")
     results = [result_of(c) for c in cases]
     rf = ctx.scratch / "c19_results.json"
     rf.write_text(json.dumps(results))
-    bad = p3.judge(ctx, "Builder", consts, cases_file, rf)
+    bad = p3.judge(ctx, "Builder", consts, cases_file, rf, env=judge_env(cases_file))
     nbind = sum(1 for c in cases if c["kind"] == "bind")
     outcomes: dict[str, int] = {}
     for r in results:
@@ -127,9 +133,10 @@ def run(ctx):
     ctx.coverage.update({
         "evaluations": len(cases), "distinct_nontrivial": nontrivial, "exhaustive": True,
         "bind_cases": nbind, "edge_cases": len(cases) - nbind, "final_outcomes": outcomes,
-        "rule": f"spec/Builder.tla!Bind: every valid signature with <= {consts['MaxP']} parameters (positional-or-keyword / "
-                "keyword-only, annotation absent/int/str, default absent/5/'d', return annotation absent/int) x every positional "
-                "prefix x every keyword subset of the remaining parameters (values 1 / 'kv'), in one with_values call or split in "
+        "rule": f"spec/Builder.tla!Bind: every valid signature with <= {consts['MaxPB']} parameters (positional-or-keyword / "
+                "keyword-only, annotation absent/int/str, default absent/5/'d', return annotation absent (and int when nothing is bound); without defaults up to "
+                f"{consts['MaxPB0']} parameters) x every positional prefix x every keyword subset of the remaining parameters "
+                f"({consts['NVals']} values out of 1 / 'kv' / 'v'), in one with_values call or split in "
                 f"two; !Edge1: producer t1 (return annotation absent/int/str) x consumer t2 (<= {consts['MaxP']} parameters, no "
                 "defaults) x one edge with source task/output, sink task, sink parameter existing or dangling, keyword or "
                 f"positional; !Edge2: two edges (consumer <= {consts['MaxP2']} parameters); all enumerated by TLC; non-trivial = "
@@ -152,3 +159,20 @@ def run(ctx):
                         "ints and strs; 'compatible declared type' is read as: equal types or an un-annotated parameter are "
                         "compatible, int vs str is not, an un-annotated producer into an annotated parameter may be accepted or "
                         "rejected (but must not raise); keyword bindings name existing parameters only"]
+
+
+def replay(ctx, rep) -> int:
+    """./check C19 --replay <file>: run the recorded case through the real code again and let TLC judge it."""
+    case = rep["replay"]["case"]
+    consts = {"MaxP": "2", "MaxP2": "1", "MaxPB": "2", "MaxPB0": "2", "NVals": "2"}
+    cf = ctx.scratch / "c19_replay_cases.json"
+    cf.write_text(json.dumps([case]))
+    result = result_of(case)
+    rf = ctx.scratch / "c19_replay_results.json"
+    rf.write_text(json.dumps([result]))
+    bad = p3.judge(ctx, "Builder", consts, cf, rf, tag="replay", env=judge_env(cf))
+    if bad:
+        print(f"VIOLATION property=C19 replay reproduces {sorted(bad[1])}: {json.dumps(result)[:400]}")
+        return 1
+    print("OK property=C19 replay: the recorded case satisfies the post-condition on this tree")
+    return 0
